@@ -519,7 +519,95 @@ func runScratch(c *core.Ctx) []core.Obligation {
 				"the call that tells the target this call's MaxError is conditional: a target reused from a call that permitted an error keeps it"))
 		}
 	}
+	obs = append(obs, queueDrained(c)...)
 	return obs
+}
+
+// queueDrained: EdgeQuery.queue is allocated once by the constructor and lives across calls, so its CONTENT is
+// scratch state too. The search leaves it empty: the work loop of findEdgesOptimized is left either through its
+// own condition (queue.size() > 0 is false) or on a path that calls queue.reset() - unless the queue is reset
+// unconditionally before the loop, which would make leftovers harmless.
+func queueDrained(c *core.Ctx) []core.Obligation {
+	construct := "EdgeQuery.queue:drained"
+	fn := c.Fn("s2", "EdgeQuery", "findEdgesOptimized")
+	if fn == nil {
+		return []core.Obligation{core.Ob("R-SCRATCH", construct, "-", "", core.Violated, "unresolved anchor: findEdgesOptimized")}
+	}
+	isQueueCall := func(in ssa.Instruction, name string) bool {
+		ci, ok := in.(ssa.CallInstruction)
+		if !ok {
+			return false
+		}
+		f := core.StaticCallee(ci)
+		if f == nil || f.Name() != name || f.Signature.Recv() == nil || !core.IsNamed(f.Signature.Recv().Type(), "s2", "queryQueue") {
+			return false
+		}
+		return true
+	}
+	// the work loop: header whose condition comes from queue.size()
+	var header *ssa.BasicBlock
+	var body map[*ssa.BasicBlock]bool
+	for h, b := range loopsOf(fn) {
+		for _, in := range h.Instrs {
+			if isQueueCall(in, "size") {
+				header, body = h, b
+			}
+		}
+	}
+	if header == nil {
+		return []core.Obligation{core.Ob("R-SCRATCH", construct, c.Pos(fn.Pos()), core.FuncName(fn), core.Violated, "unresolved anchor: the loop over queue.size() was not found in findEdgesOptimized")}
+	}
+	resetBlocks := map[*ssa.BasicBlock]bool{}
+	for _, b := range fn.Blocks {
+		for _, in := range b.Instrs {
+			if isQueueCall(in, "reset") {
+				resetBlocks[b] = true
+			}
+		}
+	}
+	// an unconditional reset before the loop (here or at the start of initQueue) makes leftovers harmless
+	for b := range resetBlocks {
+		if !body[b] && b.Dominates(header) {
+			return []core.Obligation{core.Ob("R-SCRATCH", construct, c.Pos(fn.Pos()), core.FuncName(fn), core.Discharged, "the queue is reset on every path before the work loop")}
+		}
+	}
+	if iq := c.Fn("s2", "EdgeQuery", "initQueue"); iq != nil && len(iq.Blocks) > 0 {
+		for _, in := range iq.Blocks[0].Instrs {
+			if isQueueCall(in, "reset") {
+				return []core.Obligation{core.Ob("R-SCRATCH", construct, c.Pos(fn.Pos()), core.FuncName(fn), core.Discharged, "initQueue resets the queue unconditionally before filling it")}
+			}
+		}
+	}
+	// every way out of the loop body that does not go back through the loop condition must pass a reset
+	stop := mergeStop(resetBlocks, header)
+	for _, entry := range header.Succs {
+		if !body[entry] || resetBlocks[entry] {
+			continue
+		}
+		for _, b := range fn.Blocks {
+			if len(b.Succs) != 0 || resetBlocks[b] {
+				continue // not a function exit
+			}
+			if _, isRet := b.Instrs[len(b.Instrs)-1].(*ssa.Return); !isRet {
+				continue
+			}
+			if core.ReachableAvoiding(entry, b, nil, stop) {
+				return []core.Obligation{core.Ob("R-SCRATCH", construct, c.Pos(fn.Pos()), core.FuncName(fn), core.Violated,
+					"the work loop can be left from inside its body with entries still in EdgeQuery.queue and no queue.reset() on the way out: the queue outlives the call, so the next search on this query "+
+						"starts with cells of the previous one (of the previous target, or of an index that has since changed)")}
+			}
+		}
+	}
+	return []core.Obligation{core.Ob("R-SCRATCH", construct, c.Pos(fn.Pos()), core.FuncName(fn), core.Discharged,
+		"the work loop is left only when queue.size() == 0 or through queue.reset(): no entry survives the call")}
+}
+
+func mergeStop(a map[*ssa.BasicBlock]bool, h *ssa.BasicBlock) map[*ssa.BasicBlock]bool {
+	m := map[*ssa.BasicBlock]bool{h: true}
+	for b := range a {
+		m[b] = true
+	}
+	return m
 }
 
 // ---------------------------------------------------------------------------
@@ -599,6 +687,60 @@ func runOpts(c *core.Ctx) []core.Obligation {
 			obs = append(obs, core.Ob("R-OPTS", construct, c.Pos(w.in.Pos()), name, core.Discharged,
 				fmt.Sprintf("re-points opts for the duration of the call; every caller (%d) saves the configured pointer first and restores it in a deferred function", ncallers)))
 		}
+	}
+	obs = append(obs, subQueryLimit(c)...)
+	return obs
+}
+
+// subQueryLimit: a ShapeIndex target keeps one sub-query and one options object for its whole life. Each
+// updateDistanceTo* call must give that options object THIS call's distance limit on every path before it runs the
+// sub-query; otherwise the limit of an earlier call (possibly of an earlier, tighter search) prunes the new one.
+func subQueryLimit(c *core.Ctx) []core.Obligation {
+	var obs []core.Obligation
+	n := 0
+	for _, fn := range c.GeoFuncs() {
+		if fn.Signature.Recv() == nil {
+			continue
+		}
+		if !core.IsNamed(fn.Signature.Recv().Type(), "s2", "MinDistanceToShapeIndexTarget") && !core.IsNamed(fn.Signature.Recv().Type(), "s2", "MaxDistanceToShapeIndexTarget") {
+			continue
+		}
+		var calls []ssa.Instruction
+		var stores []ssa.Instruction
+		core.AllInstrs(fn, func(in ssa.Instruction) {
+			if ci, ok := in.(ssa.CallInstruction); ok {
+				if f := core.StaticCallee(ci); f != nil && f.Name() == "findEdge" && f.Signature.Recv() != nil && core.IsNamed(f.Signature.Recv().Type(), "s2", "EdgeQuery") {
+					calls = append(calls, in)
+				}
+			}
+			if st, ok := in.(*ssa.Store); ok {
+				if fr, ok := core.AsFieldAddr(st.Addr); ok && fr.Name == "distanceLimit" {
+					stores = append(stores, in)
+				}
+			}
+		})
+		for i, call := range calls {
+			n++
+			construct := fmt.Sprintf("subquery-limit:%s#%d", core.FuncName(fn), i+1)
+			ok := false
+			for _, st := range stores {
+				if st.Block() == call.Block() && core.InstrBlockIndex(st) < core.InstrBlockIndex(call) {
+					ok = true
+				} else if st.Block() != call.Block() && st.Block().Dominates(call.Block()) {
+					ok = true
+				}
+			}
+			if ok {
+				obs = append(obs, core.Ob("R-OPTS", construct, c.Pos(call.Pos()), core.FuncName(fn), core.Discharged, "the sub-query's distance limit is assigned on every path before the sub-query runs"))
+			} else {
+				obs = append(obs, core.Ob("R-OPTS", construct, c.Pos(call.Pos()), core.FuncName(fn), core.Violated,
+					"the sub-query can run without its options' distanceLimit having been assigned in this call: the target object keeps its options between calls, so the limit left by an earlier call "+
+						"(an earlier, tighter search) prunes cells of this one"))
+			}
+		}
+	}
+	if n < 6 {
+		obs = append(obs, core.Ob("R-OPTS", "subquery-limit:anchor", "-", "", core.Violated, fmt.Sprintf("only %d sub-query calls found in the ShapeIndex targets, 6 expected", n)))
 	}
 	return obs
 }
